@@ -129,16 +129,22 @@ Definition abs_gt (bits : Z) (a : value) (T : bnd) : bool := gt_bound bits a T |
 (* |v - d| <= 10^u, or v lies in a decade above d's (adjusted exponent adj) and |v - d| <= 10^(u+1):
    "one unit in the last place of a Precision-digit result", taking the larger of the units of the
    result and of the exact value when they straddle a power of ten *)
-Definition within_of (bits : Z) (a : value) (d : bnd) (u : Z) : bool :=
-  ge_bound bits a (bsub d (1, u)) && le_bound bits a (badd d (1, u)).
-Definition beyond_of (bits : Z) (a : value) (d : bnd) (u : Z) : bool :=
-  lt_bound bits a (bsub d (1, u)) || gt_bound bits a (badd d (1, u)).
+Definition within_tol (bits : Z) (a : value) (d tol : bnd) : bool :=
+  ge_bound bits a (bsub d tol) && le_bound bits a (badd d tol).
+Definition beyond_tol (bits : Z) (a : value) (d tol : bnd) : bool :=
+  lt_bound bits a (bsub d tol) || gt_bound bits a (badd d tol).
+Definition within_of (bits : Z) (a : value) (d : bnd) (u : Z) : bool := within_tol bits a d (1, u).
+Definition beyond_of (bits : Z) (a : value) (d : bnd) (u : Z) : bool := beyond_tol bits a d (1, u).
 
 Definition judge_ulp (bits : Z) (a : value) (d : bnd) (adj u : Z) : verdict :=
   if within_of bits a d u then VWithin
   else if abs_ge bits a (1, adj + 1) && within_of bits a d (u + 1) then VWithin
   else if beyond_of bits a d u && (abs_lt bits a (1, adj + 1) || beyond_of bits a d (u + 1)) then VBeyond
   else VUnknown.
+
+(* proven: |v - d| <= 1.5 * 10^u (a qualifier attached to an alarm, used to tell the recorded
+   directed-rounding findings - excess of a fraction of a unit - from anything worse) *)
+Definition near_miss (bits : Z) (a : value) (d : bnd) (u : Z) : bool := within_tol bits a d (15, u - 1).
 
 (* ---------- the operations ---------- *)
 Inductive top := TExp | TLn | TLog10 | TPow.
@@ -198,6 +204,7 @@ Definition O_TR_EXACT := 111.      (* a value that is exact by definition is not
 Definition O_TR_OVERFLOW := 112.   (* Overflow / Infinity reported although the exact value is proven inside the range *)
 Definition O_TR_UNDERFLOW := 113.  (* Underflow reported although the exact value is proven inside the normal range *)
 Definition O_TR_FORM := 114.       (* in-domain finite operands produced NaN, or Infinity without Overflow *)
+Definition O_TR_NEAR := 116.       (* qualifier of 110: the result is proven within 1.5 units *)
 Definition O_TR_UNKNOWN := 0.      (* not a failure: the enclosure is too wide at this working precision *)
 
 (* unit in the last place of the result d in context c: 10^max(etiny, adj(d) - p + 1); for a zero the exponent field *)
@@ -217,6 +224,13 @@ Definition check_underflow (bits : Z) (a : value) (c : ctx) : list Z :=
   (* legitimate only if |v| < 10^emin + one unit *)
   if abs_lt bits a (under_limit c) then []
   else if abs_gt bits a (under_limit c) then [O_TR_UNDERFLOW] else [O_TR_UNKNOWN].
+
+Definition check_ulp (bits : Z) (a : value) (c : ctx) (d : dec) : list Z :=
+  match judge_ulp bits a (bdec d) (adj_of d) (ulp_exp c d) with
+  | VWithin => []
+  | VBeyond => O_TR_ULP :: (if near_miss bits a (bdec d) (ulp_exp c d) then [O_TR_NEAR] else [])
+  | VUnknown => [O_TR_UNKNOWN]
+  end.
 
 Definition oracle_c12 (bits : Z) (t : top) (c : ctx) (x y : dec) (o : obs) : list Z :=
   if negb (in_domain t x y && wf_ctx c && (1 <=? prec c)) then [] else
@@ -241,11 +255,7 @@ Definition oracle_c12 (bits : Z) (t : top) (c : ctx) (x y : dec) (o : obs) : lis
             (* directed modes deliver the largest finite number together with Overflow *)
             check_overflow bits a c
           else
-            (match judge_ulp bits a (bdec d) (adj_of d) (ulp_exp c d) with
-             | VWithin => []
-             | VBeyond => [O_TR_ULP]
-             | VUnknown => [O_TR_UNKNOWN]
-             end)
+            check_ulp bits a c d
             ++ (if Underflow (o_cond o) then check_underflow bits a c else [])
       end
   end.
